@@ -31,6 +31,7 @@ import TnVerif.Model.TruncAnova
 import TnVerif.Model.RectMaxvol
 import TnVerif.Model.RoundTucker
 import TnVerif.Model.SqueezeOps
+import TnVerif.Model.Logic
 /-
   Line-protocol driver (DESIGN §2.6).  One request per line on stdin, one answer per line on
   stdout.  Tokens are separated by blanks; numbers are integers or `p/q`.
@@ -274,6 +275,28 @@ def tkTab (m : TkMode Rat) : TMode Q :=
 def qrOfMats (qm rm : Mat Q) : QRAns Rat :=
   { k := qm.cols, Q := fun row c => (qm.f row c).v, Rm := fun c d => (rm.f c d).v }
 
+
+
+/-! logic.py: the order of the driver's scalars is the order of their values (tangents play no role in comparisons) -/
+instance : LT Q := ⟨fun a b => a.v < b.v⟩
+instance : DecidableLT Q := fun a b => inferInstanceAs (Decidable (a.v < b.v))
+
+/-- a literal threshold re-extracted from logic.py on every run (pinned by C15.thresholds_from_source) -/
+def logicThr (l : List (Int × Nat)) : Q :=
+  let e := l.getD 0 (0, 1)
+  ⟨mkRat e.1 e.2, 0⟩
+
+/-- `which`: `_` (None) or a list `k w_1 … w_k` -/
+def pWhich : PM (Option (List Nat)) := do
+  let s ← get
+  if h : s.pos < s.toks.size then
+    if s.toks[s.pos] == "_" then
+      set { s with pos := s.pos + 1 }
+      return none
+    else return some (← pNatList)
+  else throw "eof"
+
+def showBool (b : Bool) : String := if b then "ok B 1" else "ok B 0"
 
 def run (cmd : String) : PM String := do
   match cmd with
@@ -857,6 +880,61 @@ def run (cmd : String) : PM String := do
         match r with
         | .error e => return "err " ++ showSqErr e
         | .ok r => return "ok " ++ showItem r
+  | "logic_helper" => do
+      let name ← next; let N ← pNat
+      match name with
+      | "true" => return "ok " ++ showTensor (logicTrue (R := Q) N)
+      | "false" => return "ok " ++ showTensor (logicFalse (R := Q) N)
+      | "all" => do let w ← pWhich; return "ok " ++ showTensor (logicAll (R := Q) N w)
+      | "none" => do let w ← pWhich; return "ok " ++ showTensor (logicNone (R := Q) N w)
+      | "any" => do let w ← pWhich; return "ok " ++ showTensor (logicAny (R := Q) N w)
+      | "one" => do let w ← pWhich; return "ok " ++ showTensor (logicOne (R := Q) N w)
+      | "presence" | "absence" => do
+          let w ← pIntList
+          match (if name == "presence" then logicPresence (R := Q) N w else logicAbsence (R := Q) N w) with
+          | .ok t => return "ok " ++ showTensor t
+          | .error e => return "err " ++ showErr e
+      | _ => throw s!"unknown helper {name}"
+  | "lnot" => do let t ← pTensor; return "ok " ++ showTensor t.lnot
+  | "land" => do let t ← pTensor; let u ← pTensor; return "ok " ++ showTensor (t.land u)
+  | "lor" => do let t ← pTensor; let u ← pTensor; return "ok " ++ showTensor (t.lor u)
+  | "lxor" => do let ρ ← pQ; let t ← pTensor; let u ← pTensor; return "ok " ++ showTensor (t.lxor ρ u)
+  | "mask" => do let t ← pTensor; let m ← pTensor; return "ok " ++ showTensor (t.maskWith (t.shape.map List.range) m)
+  | "relnormsq" => do
+      let n ← pNat; let t ← pTensor
+      match t.memo.logicRelNormsq n with
+      | .ok x => return "ok S " ++ showQ x
+      | .error e => return "err " ++ showErr e
+  | "relevant" | "irrelevant" => do
+      let t ← pTensor
+      let thr := logicThr TN.Generated.floats_logic_relevant_symbols
+      match (if cmd == "relevant" then t.memo.relevantSymbols thr else t.memo.irrelevantSymbols thr) with
+      | .ok l => return "ok L " ++ showNats l
+      | .error e => return "err " ++ showErr e
+  | "only" => do
+      let t ← pTensor
+      match t.memo.only (logicThr TN.Generated.floats_logic_relevant_symbols) with
+      | .ok u => return "ok " ++ showTensor u
+      | .error e => return "err " ++ showErr e
+  | "predicate" => do
+      let name ← next
+      match name with
+      | "is_tautology" => do
+          let t ← pTensor; return showBool (t.memo.isTautology (logicThr TN.Generated.floats_logic_is_tautology))
+      | "is_contradiction" => do
+          let t ← pTensor; return showBool (t.memo.isContradiction (logicThr TN.Generated.floats_logic_is_contradiction))
+      | "is_satisfiable" => do
+          let t ← pTensor
+          match t.memo.isSatisfiable (logicThr TN.Generated.floats_logic_is_satisfiable) with
+          | .ok b => return showBool b
+          | .error e => return "err " ++ showErr e
+      | "implies" => do
+          let t ← pTensor; let u ← pTensor
+          return showBool (t.memo.limplies (logicThr TN.Generated.floats_logic_is_contradiction) u.memo)
+      | "equiv" => do
+          let t ← pTensor; let u ← pTensor
+          return showBool (t.memo.lequiv (logicThr TN.Generated.floats_logic_is_contradiction) u.memo)
+      | _ => throw s!"unknown predicate {name}"
   | _ => throw s!"unknown command {cmd}"
 
 def handle (line : String) : String :=
